@@ -42,7 +42,11 @@ Coord == {
   P("coord", <<Ex("px", "signal-C", 3), Unt("y", 7), Unt("u", 2), Unt("w", 1), SPlace("l", "steel-chest", Bin("+", Ref("px"), Num(1)), Num(0), <<>>),
                SLet("Signal", "r", Bin("+", Bin("+", Y, U), Ref("w")))>>)
  }
-All == Basic \cup Consts \cup Several \cup ManyP \cup Coord
+KindSigs == {"iron-plate", "water", "signal-red", "signal-A"}
+Ops2 == {"+", "*", "-", "<<", "AND", "**", "%", "/"}
+KindsP == {P("kinds", <<Ex("x", t, 5), Unt("y", 7), SLet("Signal", "r", Bin(op, Y, X)), SLet("Signal", "s", Bin(op, X, Y))>>) : t \in KindSigs, op \in Ops2}
+     \cup {P("kinds", <<Ex("x", t, 5), Ex("z", t, 2), Unt("y", 7), SLet("Signal", "r", Bin("*", Y, X)), SLet("Signal", "f", Bin("&&", Bin(">", Ref("r"), Num(5)), Bin(">", Z, Num(1))))>>) : t \in KindSigs}
+All == Basic \cup Consts \cup Several \cup ManyP \cup Coord \cup KindsP
 ASSUME PrintT(<<"NPROGS", Cardinality(All)>>)
 ASSUME JsonSerialize(IOEnv.GEN_OUT, SetToSeq(All))
 =============================================================================
